@@ -223,8 +223,11 @@ func (m *collection) mergerWaitForWork(pings []ping) (
 	// A stackDirtyMid that could not be handed to the persister because
 	// it was still busy is work, too, once the persister is done: the
 	// persister only wakes a merger that is already asleep when it looks.
-	midWaitsForPersister := m.options.LowerLevelUpdate != nil &&
+	midWaitsForPersister := m.midHandOverSkipped &&
 		m.stackDirtyBase == nil && m.stackDirtyMid != nil
+	if midWaitsForPersister {
+		m.midHandOverSkipped = false // One more cycle is enough to hand it over.
+	}
 
 	if m.stackDirtyTop == nil && !midWaitsForPersister {
 		m.waitDirtyIncomingCh = make(chan struct{})
@@ -257,6 +260,10 @@ func (m *collection) mergerWaitForWork(pings []ping) (
 		atomic.AddUint64(&m.stats.TotMergerWaitIncomingEnd, 1)
 	} else {
 		atomic.AddUint64(&m.stats.TotMergerWaitIncomingSkip, 1)
+
+		if m.isClosed() {
+			return true, mergeAll, pings
+		}
 	}
 
 	pings, mergeAll = receivePings(m.pingMergerCh, pings, "mergeAll", mergeAll)
@@ -374,6 +381,10 @@ func (m *collection) mergerNotifyPersister() {
 		m.stackDirtyBaseCond.Broadcast()
 	} else {
 		atomic.AddUint64(&m.stats.TotMergerLowerLevelNotifySkip, 1)
+
+		// Remember that a dirty mid stack is left behind because the
+		// persister was still busy, see mergerWaitForWork().
+		m.midHandOverSkipped = m.stackDirtyMid != nil
 	}
 
 	var waitDirtyOutgoingCh chan struct{}
